@@ -153,6 +153,12 @@ func propC05(c *Check) {
 		c.RequireFact(h, "R5", "quorum-gate", verifyProposalOK, nil, "")
 	}
 
+	// the "current relayer key" of R3 is the key of the latest voted MsgNewPubkey: its handler stores the voted
+	// key as the current one on every success path, and nothing else writes it at run time
+	c.RequireFact(p.MustFn("x/bitcoin/keeper.msgServer.NewPubkey"), "R3", "voted-key-becomes-current", `^\(Pubkey\.Set\(\*\$2\.Pubkey\) == nil\)$`, nil, "")
+	c.checkWriters("R3", "x/bitcoin/keeper", "Pubkey", map[string]string{"x/bitcoin/keeper.msgServer.NewPubkey": "Set", "x/bitcoin/module.InitGenesis": "Set",
+		"x/bitcoin/keeper.Keeper.NewPubkey": "Set" /* stores its argument as the current key as well; no production caller */}, 2)
+
 	// R3 terms
 	terms := func(fnKey, txField, feeField, ids string, replace bool) {
 		h := p.MustFn(fnKey)
